@@ -68,4 +68,4 @@ The two `.pyx`-only ones carry demos that execute the `.pyx` text through `/veri
 |---|---|---|---|
 """ % len(ro) + "\n".join(ro) + "\n"
 open('/verif/seeded/README.md', 'w').write(readme)
-print(len(r1), len(r2), len(ro))
+print(len(r1), len(r2), len(r3), len(r4), len(ro))
